@@ -50,6 +50,8 @@ def norm_lit(facts, e, v):
             if op == "Le":
                 e, v = ("bin", "Lt", b, a), not v
                 continue
+            if op in ("Eq", "Lt") and a[0] == "int" and b[0] == "int":
+                return ("const", ((a[1] == b[1]) if op == "Eq" else (a[1] < b[1])) == v)
             if op == "Eq":
                 for x, y in ((a, b), (b, a)):
                     if y[0] == "enum":
@@ -407,25 +409,48 @@ class PG:
         return out
 
     def returns(self, limit=4000):
-        """[(literals, value_expr)] for every acyclic path to a return."""
+        """[(literals, value_expr, return_block)] for every acyclic path to a return. The value is taken
+        from the last assignment to the return place on that path (path-sensitive)."""
         out = []
         cnt = [0]
         a = self.an
+        body = self.body
 
-        def dfs(n, lits, onpath):
+        def last_ret_def(bi):
+            b = body.blocks[bi]
+            d = None
+            for si, st in enumerate(b["stmts"]):
+                if st["k"] == "assign" and st["place"]["l"] == 0 and not st["place"]["p"]:
+                    d = (bi, si, "assign", st["rv"])
+            t = b["term"]
+            if t["k"] == "call" and t["dest"]["l"] == 0 and not t["dest"]["p"]:
+                d = (bi, "term", "call", t)
+            return d
+
+        def dfs(n, lits, onpath, rdef):
             cnt[0] += 1
             if cnt[0] > limit:
                 raise OverflowError("too many paths")
             bi = self.nodes[n][0]
-            if self.body.blocks[bi]["term"]["k"] == "return":
-                env = self.envs[n]
-                v = a.expr_local(0, (bi, "term"), 0, frozenset(), dict(env) if env else None)
+            d = last_ret_def(bi)
+            if d is not None:
+                rdef = (d, self.envs[n])
+            if body.blocks[bi]["term"]["k"] == "return":
+                if rdef is None:
+                    v = a.expr_local(0, (bi, "term"), 0, frozenset(), dict(self.envs[n]) if self.envs[n] else None)
+                else:
+                    d, env = rdef
+                    env = dict(env) if env else None
+                    if d[2] == "assign":
+                        v = a.expr_rvalue(d[3], (d[0], d[1]), 0, env)
+                    else:
+                        v = a.expr_call(d[3], (d[0], "term"), 0, env)
                 out.append((tuple(lits), v, bi))
                 return
             for m, ls in self.edges[n] or []:
                 if m in onpath:
                     continue
-                dfs(m, lits + list(ls), onpath | {m})
+                dfs(m, lits + list(ls), onpath | {m}, rdef)
 
-        dfs(0, [], {0})
+        dfs(0, [], {0}, None)
         return out
